@@ -897,6 +897,11 @@ pub fn regressions(ctx: &mut Ctx) {
         let mut s = Secs::default();
         s.set(SectionId::DebugLine, unhex(c_line));
         cases.push(("conv.line", "row with line >= 2^63 after a row with a small line", s, P { enc: Enc::new(false, false, 3, 4), ..p }));
+        // (D) VLIW: DW_LNS_fixed_advance_pc 0 after a row with op_index 3 (same address, smaller op_index)
+        let d_line = "00000063000400000023010401fb0e0a0001010101000000017375620000612e6300000000622e63000103040000030200100d02030100030200500b037e040105070607010809000400020401010006036600000000020101010101070109000001037e000101";
+        let mut s = Secs::default();
+        s.set(SectionId::DebugLine, unhex(d_line));
+        cases.push(("conv.line", "VLIW: fixed_advance_pc 0 after a row with op_index > 0", s, P { enc: Enc::new(false, false, 4, 2), ..p }));
     }
     // die_ranges: low_pc near max + high_pc constant
     {
